@@ -5,7 +5,7 @@ from ..ref import P, L, to32, le
 
 REQUIRED = ['sqrt:residue', 'sqrt:nonresidue', 'sqrt:zero', 'invert:zero', 'invert:nonzero', 'repr:canonical', 'repr:noncanonical',
             'repr:highbit', 'consts', 'enc:edwards', 'enc:subgroup-torsion', 'enc:subgroup-free', 'enc:ristretto',
-            'subgroup:torsion', 'subgroup:free', 'ops:edwards', 'ops:subgroup', 'ops:ristretto', 'ops:scaled', 'field-bits', 'group-random:skips']
+            'subgroup:torsion', 'subgroup:free', 'ops:edwards', 'ops:subgroup', 'ops:ristretto', 'ops:scaled', 'field-bits', 'group-random:skips', 'from-str:malformed']
 
 
 def B(x):
@@ -215,6 +215,21 @@ def scalars(ctx, n):
                         cls=['group-random', 'group-random:skips'])
     for v in [0, 1, L - 1, rng.randrange(L)]:
         ctx.add('gp.from_str', 's%d' % v, expect=['some', to32(v).hex()], cls='from-str')
+    # decimal strings the provided PrimeField::from_str_vartime refuses (empty, leading zero, any non-digit) or reduces
+    def from_str_model(st):
+        if st == '':
+            return None
+        if st == '0':
+            return 0
+        if st[0] == '0' or any(ch not in '0123456789' for ch in st):
+            return None
+        return int(st) % L
+    digs = '1234567890123456789'
+    bad = ['', '0', '00', '01', '+7', '+0', '-1', '7+', '1x', 'x', '0x10', '1e3', '1_0', '١٢', '１２', digs + '+1', digs + '-1', digs * 2 + '+5',
+           '+' + digs, digs + digs, str(L), str(L + 1), str(L - 1), str(2**256), '9' * 100, '1' + '0' * 77, '7' * 19, '7' * 20, '7' * 38, '7' * 39]
+    for st in bad:
+        mv = from_str_model(st)
+        ctx.add('gp.from_str', 's' + st, expect=(['none'] if mv is None else ['some', to32(mv).hex()]), cls='from-str:malformed')
 
 
 def encodings(ctx, n):
@@ -318,7 +333,7 @@ def task(prop, seed, size_, cfgbins):
 
 def run(prop, tier, seed, t0):
     from .. import plan
-    cfgs = plan.ALL_CFGS
+    cfgs = plan.ALL_CFGS + ['simd-legacy']
     bins, notes, failed = plan.bins_for(cfgs, ('rel', 'chk') if tier == 'thorough' else ('rel',))
     if failed:
         return plan.fail_build(prop, failed)
